@@ -99,13 +99,29 @@ func FormType(r *Rand, form string, c *TypeCfg, depth int) *schema.Type {
 	case "struct":
 		return schema.StructOf(nestedStruct(r, c, depth+1), false)
 	case "map":
-		return schema.MapOf(FormType(r, KeyForms[r.Intn(8)], c, depth+1), FormType(r, ValForms[r.Intn(9)], c, depth+1))
+		return schema.MapOf(FormType(r, KeyForms[r.Intn(keyChoices(r, c, depth))], c, depth+1), FormType(r, ValForms[r.Intn(elemChoices(r, c, depth, 9))], c, depth+1))
 	case "set":
-		return schema.SetOf(FormType(r, ValForms[r.Intn(8)], c, depth+1))
+		return schema.SetOf(FormType(r, ValForms[r.Intn(elemChoices(r, c, depth, 8))], c, depth+1))
 	case "list":
-		return schema.ListOf(FormType(r, ValForms[r.Intn(11)], c, depth+1))
+		return schema.ListOf(FormType(r, ValForms[r.Intn(elemChoices(r, c, depth, 11))], c, depth+1))
 	}
 	panic("gen: unknown form " + form)
+}
+
+// elemChoices widens the element forms to containers of containers (and structs)
+// while the nesting budget lasts; base is the number of leaf forms always allowed.
+func elemChoices(r *Rand, c *TypeCfg, depth, base int) int {
+	if depth+1 < c.MaxDepth && r.Chance(1, 3) {
+		return len(ValForms)
+	}
+	return base
+}
+
+func keyChoices(r *Rand, c *TypeCfg, depth int) int {
+	if depth+1 < c.MaxDepth && r.Chance(1, 6) {
+		return len(KeyForms) // includes *struct keys
+	}
+	return 8
 }
 
 func nestedStruct(r *Rand, c *TypeCfg, depth int) *schema.Struct {
